@@ -2,6 +2,8 @@ pub mod grammar;
 pub mod lexicon;
 pub mod locator;
 pub mod span;
+#[cfg(feature = "verif")]
+pub mod verif;
 
 #[cfg(test)]
 mod locator_tests;
